@@ -307,6 +307,31 @@ func firstGapiErrorCode(b *ssa.BasicBlock) (int64, token.Pos, bool) {
 	return 0, token.NoPos, false
 }
 
+// readsFromMemory: the reader is (a bufio wrapper of) bytes.NewReader / strings.NewReader
+// over bytes already in memory: reading it cannot fail.
+func readsFromMemory(v ssa.Value) bool {
+	for i := 0; i < 6; i++ {
+		v = core.Resolve(v)
+		call, ok := v.(*ssa.Call)
+		if !ok {
+			return false
+		}
+		sc := call.Call.StaticCallee()
+		if sc == nil || sc.Pkg == nil {
+			return false
+		}
+		switch sc.Pkg.Pkg.Path() + "." + sc.Name() {
+		case "bytes.NewReader", "strings.NewReader", "bytes.NewBuffer", "bytes.NewBufferString":
+			return true
+		case "bufio.NewReader", "bufio.NewReaderSize", "io.NopCloser":
+			v = call.Call.Args[0]
+		default:
+			return false
+		}
+	}
+	return false
+}
+
 func R17() Rule {
 	return Rule{Name: "R17", Run: func(c *core.Ctx) {
 		P := c.P
@@ -329,7 +354,7 @@ func R17() Rule {
 			fb, why := failureEdge(n, s)
 			if fb == nil {
 				// io.ReadAll of an in-memory reader (batch part remainder) is deliberately unchecked
-				if s.what == "io.ReadAll" && fname == "(*GcsEmu).BatchHandler" {
+				if s.what == "io.ReadAll" && readsFromMemory(s.call.Call.Args[0]) {
 					c.Ok("R17", construct, s.call.Pos(), false, "read of an in-memory reader or a part already bounded; checked variant precedes it")
 					continue
 				}
